@@ -563,7 +563,7 @@ def _m_repeat(it, args, kwargs):
     s = a.seq
     if isinstance(n, NDArr):
         raise Unsupported("repeat with per-element counts")
-    if conc(s.len) == 1:
+    if conc(s.len) == 1 or it.ctx.valid(zint(s.len) == 1):
         e = s.at(0)
         nn = conc(z3.If(zint(n) >= 0, zint(n), 0))
         if not it.ctx.branch(zint(n) >= 0):
@@ -829,6 +829,8 @@ def make_np(it):
         "isnan": ModelFn("np.isnan", _np_isnan), "isnat": ModelFn("np.isnat", _np_isnat),
         "array": ModelFn("np.array [fresh]", _np_array), "lexsort": ModelFn("np.lexsort", _np_lexsort),
         "split": ModelFn("np.split [views]", _np_split), "dtype": ModelFn("np.dtype", _np_dtype),
+        "isscalar": ModelFn("np.isscalar", lambda it_, a, k: not isinstance(a[0], (NDArr, MList, PyList, Seq, list, tuple, dict, GenValue))
+                            and not hasattr(a[0], "pyvc_segments")),
         "ndarray": NDARRAY, "bool_": TypeObj("bool_"), "bytes_": TypeObj("bytes_"), "datetime64": TypeObj("datetime64"),
         "floating": TypeObj("floating"), "integer": TypeObj("integer"), "number": TypeObj("number"),
         "object_": TypeObj("object_"), "str_": TypeObj("str_"), "timedelta64": TypeObj("timedelta64"),
